@@ -171,6 +171,15 @@ theorem wf_of_check (g : Genome F) (hc : wfStruct g = true)
   have h2 := h1.2 k hk
   exact ⟨h2.1.1, h2.1.2, h2.2⟩
 
+/-- `run` returns the denotation from every state (restated as `interp_eq_denote` in Props.lean) -/
+theorem run_eq_denote (g : Genome F) (h : WF g) (s : St F) (ex : List (Val F)) :
+    (run g ex s).1 = denote g ex g.best := by
+  unfold run runLocus
+  have hm : MemoOK g ex (fun l => (false, (s.memo l).2)) := by
+    intro l hl; simp at hl
+  exact (evalAt_spec_gen g h ex g.rows g.best s.ok
+    { memo := fun l => (false, (s.memo l).2), ip := g.best, ok := s.ok } h.best (by omega) ⟨hm, rfl, rfl⟩).1
+
 /-! ### trees -/
 
 theorem denoteF_eq_unfold (g : Genome F) (ex : List (Val F)) :
